@@ -87,8 +87,27 @@ def enum_small():
                 yield {"ivs": [list(x) for x in perm], "grid": list(pts)}
 
 
+def enum_four():
+    """thorough only: all sets of 4 intervals (invalid ones included) over a 5-point grid, in two insertion orders each, and
+    every insertion order of every valid 4-interval map over a 9-point grid"""
+    pts = range(5)
+    ivs = [(s, e) for s in pts for e in pts]
+    for sel in itertools.combinations(ivs, 4):
+        yield {"ivs": [list(x) for x in sel], "grid": list(pts)}
+        yield {"ivs": [list(x) for x in reversed(sel)], "grid": list(pts)}
+    pts9 = range(9)
+    good = [(s, e) for s in pts9 for e in pts9 if s <= e and e - s <= 2]
+    for sel in itertools.combinations(good, 4):
+        if all(not (a[0] <= b[1] and b[0] <= a[1]) for a, b in itertools.combinations(sel, 2)):
+            for perm in itertools.permutations(sel):
+                yield {"ivs": [list(x) for x in perm], "grid": list(pts9)}
+
+
 def enumerations(tier):
-    return [("<=3-intervals-6point-grid-all-probes", enum_small, True)]
+    parts = [("<=3-intervals-6point-grid-all-probes", enum_small, True)]
+    if tier == "thorough":
+        parts.append(("4-intervals-5point-grid-and-all-orders-of-valid-4-interval-maps-9point-grid", enum_four, True))
+    return parts
 
 
 def strategies(tier):
